@@ -3,6 +3,7 @@ import Proofs.C15Hist
 import Proofs.C15Retry
 import Proofs.C15Walk
 import Proofs.C15First
+import Proofs.C15Prep
 /-!
 # C15 — paged iteration yields every row exactly once, in order, and then stops
 
@@ -742,6 +743,42 @@ example :
     let w := Walk.execX ppOf (Walk.start ppOf script q)
       [.base (.scan .scan 2), .base .arrive, .cancel 1, .base (.scan .scan 9)]
     w.it.out = [1, 2, 3, 4, 5] ∧ w.it.cur.err = some .ctx ∧ w.it.reqs.length = 2 := by
+  decide
+
+
+/-! ## A failing PREPARE at a page fetch (`Model/PagingPrep.lean`): the first fetch of an uncached statement, or
+    any page after an UNPREPARED answer -/
+
+open Paging.Prep in
+/-- **A failed PREPARE surfaces like a failed fetch, and nothing is sent after it.** For every script over
+    fetch attempts in which the PREPARE of any attempt may fail (`prepFail`), every query with automatic paging:
+    rows and final error are the specification's for the script read with "failed PREPARE = failed fetch" —
+    the rows of the pages before, then THAT error, never a normal end; and (no present-but-empty state) the
+    requests are exactly `Prep.Spec.reqs`: as without the failure up to and including the PREPARE that failed,
+    and then neither the EXECUTE of that attempt nor any later request. -/
+theorem C15_prepare_failure_surfaces (pp : Nat → Nat) (script : List PReply) (cached : Bool) (q : Qry)
+    (hq : q.disableAutoPage = false) :
+    (runP pp script cached q).rows = Spec.rows (script.map toBase) ∧
+    (runP pp script cached q).err = Spec.err (script.map toBase) ∧
+    (NoEmptyStateP script →
+      (runP pp script cached q).reqs = Prep.Spec.reqs (template q) q.prepared script (!cached) (firstState q)) :=
+  ⟨(runP_rows_err pp script cached q hq).1, (runP_rows_err pp script cached q hq).2,
+   fun hne => runP_reqs pp script cached q hq hne⟩
+
+open Paging.Prep in
+/-- without a failing PREPARE this model IS the base model (every theorem about `run` speaks about it) -/
+theorem C15_prepare_none_is_base (pp : Nat → Nat) (script : List Reply) (cached : Bool) (q : Qry) :
+    runP pp (script.map PReply.base) cached q = run pp script cached q :=
+  runP_base pp script cached q
+
+/-- non-vacuity: page 1 (rows 1,2), the fetch of page 2 is answered UNPREPARED, the re-PREPARE fails with
+    0x2000: rows 1,2 and THAT error; sent: PREPARE, EXECUTE, EXECUTE(state 07), PREPARE — and no third EXECUTE -/
+example :
+    let q : Qry := { ident := 1, prepared := true, skipMeta := false, pageSize := 0, pageState := [], disableAutoPage := false }
+    let script : List Prep.PReply := [.base (.page [1, 2] (some [7])), .base .unprepared, .prepFail (.srv 0x2000), .base (.page [3] none)]
+    Prep.valid true script true = true ∧
+    Prep.runP (fun _ => 0) script false q =
+      ⟨[1, 2], [.prepare, .exec 1 true false none none, .exec 1 true false (some [7]) none, .prepare], some (.srv 0x2000)⟩ := by
   decide
 
 
